@@ -11,6 +11,9 @@ def k_harnesses(tier):
         ("c05_find_train_intersect_range", 900, [F + "find_train_intersect (LinkOptType::Range)"], ["idx_sentinel < len", "range width <= 16 (LinkOptType::new)", "link indices index links_blocked in range"], {"path length": "1..5", "unwind": 7}),
         ("c05_find_train_intersect_check", 900, [F + "find_train_intersect (LinkOptType::Check)"], ["idx_sentinel < len", "link indices index links_blocked in range"], {"path length": "1..5", "unwind": 7}),
     ]
+    hs.append(("c05_check_deadlock_replans_every_unfinished_train", 900, ["meet_pass::dispatch::check_deadlock"],
+               ["TrainDisp::update_free_path replaced by a stub that records the visit and returns an arbitrary status (never Err)", "trains with empty paths: finished iff their free index is 0"],
+               {"trains": "3 + the dummy at index 0", "finished flags, begin index, moved train": "symbolic", "unwind": 6}))
     abt = ["l2_a02", "l3_a13", "l3_a22"] if tier == "quick" else ["l1_a01", "l2_a02", "l2_a12", "l3_a03", "l3_a13", "l3_a22", "l3_a02", "l4_a24", "l4_a13"]
     for a in abt:
         ln, a0, a1 = int(a[1]), int(a[4]), int(a[5])
